@@ -1571,6 +1571,41 @@ func (c *Ctx) checkConfigBoundsAll(r *Report, cfg map[*ssa.Function]bool) {
 // stringFacts: linear facts about len() of string values and results of strings.* calls in f.
 func (c *Ctx) libFacts(f *ssa.Function, lc *linCtx) []Ineq {
 	var facts []Ineq
+	// monotone loop counters: `for i := a; …; i--` never exceeds a, `i++` never falls below a (induction on the
+	// single update i ± k)
+	eachInstr(f, func(in ssa.Instruction) {
+		phi, ok := in.(*ssa.Phi)
+		if !ok || len(phi.Edges) != 2 {
+			return
+		}
+		if _, _, isInt := intBits(phi.Type()); !isInt {
+			return
+		}
+		for i := 0; i < 2; i++ {
+			upd, ok := phi.Edges[i].(*ssa.BinOp)
+			if !ok || upd.X != ssa.Value(phi) || (upd.Op != token.ADD && upd.Op != token.SUB) {
+				continue
+			}
+			k, ok := constInt(upd.Y)
+			if !ok || k <= 0 {
+				continue
+			}
+			back := phi.Block().Preds[i]
+			if !(phi.Block() == back || phi.Block().Dominates(back)) {
+				continue
+			}
+			init := lc.lin(phi.Edges[1-i], 0)
+			if len(init) != 1 {
+				continue
+			}
+			pv := linVar(lc.varName(phi))
+			if upd.Op == token.SUB {
+				facts = append(facts, Ineq{init[0].L.add(pv, -1)}) // phi <= init
+			} else {
+				facts = append(facts, Ineq{pv.add(init[0].L, -1)}) // phi >= init
+			}
+		}
+	})
 	eachInstr(f, func(in ssa.Instruction) {
 		call, ok := in.(*ssa.Call)
 		if !ok {
